@@ -3,11 +3,6 @@
 // functions over what the accessors report, and the proof that it is a consistent order (a total preorder), which is
 // what makes "sorted" and "sorting again changes nothing" meaningful.
 // ---------------------------------------------------------------------------------------------
-/// abstract value of a Relation handle (what its accessors report) and the relation handles of an Entry handle
-pub uninterp spec fn acc(r: Relation) -> RelV;
-pub uninterp spec fn rels(e: Entry) -> Seq<Relation>;
-pub open spec fn accs(s: Seq<Relation>) -> Seq<RelV> { s.map_values(|r: Relation| acc(r)) }
-
 pub type VerV = (dc_relations::VersionConstraint, debversion::Version);
 /// operator first, then the version in Debian version order
 pub open spec fn ver_order(a: VerV, b: VerV) -> core::cmp::Ordering {
@@ -28,13 +23,6 @@ pub open spec fn rel_order(a: RelV, b: RelV) -> core::cmp::Ordering {
 }
 /// an entry sorts by its alternatives, lexicographically; a proper prefix sorts first
 pub open spec fn entry_order(s: Seq<RelV>, t: Seq<RelV>) -> core::cmp::Ordering { lex_seq(|a: RelV, b: RelV| rel_order(a, b), s, t) }
-
-pub proof fn lemma_accs_skip(s: Seq<Relation>)
-    requires s.len() > 0
-    ensures accs(s.skip(1)) == accs(s).skip(1), accs(s)[0] == acc(s[0]), accs(s).len() == s.len()
-{
-    assert(accs(s.skip(1)) =~= accs(s).skip(1));
-}
 
 // ---- the order is consistent -----------------------------------------------------------------------------------
 pub proof fn lemma_char_ord_preorder()
